@@ -74,6 +74,11 @@ impl<'de> Multipart<'de> {
         /* a part ends with CRLF followed by the boundary: the boundary text alone can appear in a content */
         let delimiter = [CRLF, boundary].concat();
 
+        /* a form without fields is the close delimiter alone: its `--` is not a part of the boundary */
+        if boundary.ends_with(b"--") && matches!(r.remaining(), b"" | b"\r\n") {
+            return Ok(Self(Vec::new()))
+        }
+
         let mut parts = Vec::new();
         while let Some(i) = r.consume_oneof(["\r\n", "--"]) {
             match i {
